@@ -153,7 +153,7 @@ def main(prop, meta):
     if native_proc is not None:
         try:
             out, err = native_proc.communicate(timeout=3600)
-            native = json.loads(out)
+            native = json.loads([l_ for l_ in out.splitlines() if l_.startswith("{")][-1])      # the code under test may print warnings to stdout: the report is the last JSON line
         except Exception as e:
             native_err = f"{type(e).__name__}: {e}: " + (locals().get("err") or "")[-1500:]
 
